@@ -16,6 +16,8 @@ mod parsecmd;
 mod manifestcmd;
 mod numop;
 mod imports;
+mod gccmd;
+mod interncmd;
 mod util;
 
 type Handler = fn(&Value) -> Value;
@@ -82,6 +84,8 @@ fn main() {
 		"manifest" => run_lines(manifestcmd::handle),
 		"numop" => run_lines(numop::handle),
 		"imports" => run_lines(imports::handle),
+		"intern" => run_lines(interncmd::handle),
+		"gc" => run_lines(gccmd::handle),
 		"version" => println!("jrharness 1"),
 		_ => {
 			eprintln!("usage: jrharness <eval|...>");
